@@ -511,15 +511,9 @@ def gen_fs_case(rng, idx, quick, wlen):
                     sops.append(["reload"])
                 sops.append(["swap" + kind, H(nm), H(rng.choice(swap_targets))])
                 sops.append([kind, H(nm)])
-                note_swap(t, base, nm)
             if rng.chance(1, 40):
                 sops.append(["reload"])
     return {"sops": sops, "tree_obj": t, "cfg": cfg, **meta}
-
-
-def note_swap(t, base, nm):
-    """the generator's tree is only used to pick later names; a swapped leaf is simply forgotten as a file"""
-    return
 
 
 def gen_mutation(t, cfg, rng, kind, nm):
@@ -601,644 +595,14 @@ def gen_pure_case(rng):
         if k == 0:
             sops.append(["norm", H(rand_lex_path(rng))])
         elif k == 1:
-            sops.append(["cont", H(rand_lex_path(rng)), H(rand_lex_path(rng))])
-        else:
-            n = mutate_name(rng.choice([b"a.txt", b"d1/a.txt", b"x/y/z"]), rng, Tree())
-            sops.append(["lexrej", H(n if len(n) < 600 else n[:600])])
-    return {"sops": sops, "cat": "pure"}
-
-
-def gen_storm_case(rng, idx, iters):
-    for _ in range(20):
-        t, cfg = gen_tree(rng)
-        if all((b"app", sub) in t.ent and t.ent[(b"app", sub)][0] == "d" for sub in (b"static", b"templates")):
-            break
-    else:
-        return None
-    sops = [tree_op(t, abs_of(()))]
-    good = b"GOOD-CONTENT-%d" % idx
-    victims = [(b"app", b"static", b"victim.txt"), (b"app", b"templates", b"victim.txt")]
-    for v in victims:
-        sops.append(["put", "f", H(abs_of(v)), H(good)])
-    sops.append(["put", "f", H(abs_of((b"app", b"static", b"victim.txt.gz"))), H(good)])
-    sops.append(["newfs", H(abs_of((b"app",))), "1" if rng.chance(1, 2) else "0"])
-    target = rng.choice([abs_of((b"outside", b"secret.txt")), b"../../outside/secret.txt"])
-    for v in victims + [(b"app", b"static", b"victim.txt.gz")]:
-        sops.append(["storm", str(iters), H(b"victim.txt"), H(abs_of(v)), H(good), H(target)])
-        sops.append(["static", H(b"victim.txt")])
-        sops.append(["template", H(b"victim.txt")])
-    return {"sops": sops, "tree_obj": t, "cfg": cfg, "cat": "storm", "tree": idx}
-
-
-# ------------------------------------------------------------------ monitors (implementation output only + what the generator created)
-def split_oracle(line):
-    if " # " in line:
-        a, b = line.split(" # ", 1)
-        return a, dict(kv.split("=", 1) for kv in b.split() if "=" in kv)
-    return line, {}
-
-
-def comps_of(b):
-    return [x for x in b.split(b"/") if x]
-
-
-def under(root_comps, path_comps):
-    return path_comps[:len(root_comps)] == root_comps
-
-
-ANCHOR_FILES = ["include/iora/web/assets.hpp"]
-
-W_TOKEN = b"@W@"          # placeholder for the sandbox directory in symbolic ops (corpus / replay files are portable)
-
-
-# ------------------------------------------------------------------ symbolic ops
-def H(b):
-    return ("h", bytes(b))
-
-
-def E(kind, path, data=b""):
-    return ("e", kind, bytes(path), bytes(data))
-
-
-def render_tok(tok, W):
-    if isinstance(tok, str):
-        return tok
-    if tok[0] == "h":
-        return hexs(tok[1].replace(W_TOKEN, W))
-    if tok[0] == "e":
-        k, p, d = tok[1], tok[2].replace(W_TOKEN, W), tok[3].replace(W_TOKEN, W)
-        return "d:%s" % hexs(p) if k == "d" else "%s:%s:%s" % (k, hexs(p), hexs(d))
-    if tok[0] == "l":      # comma list of colon records of byte strings / None
-        if not tok[1]:
-            return "-"
-        return ",".join(":".join("~" if x is None else hexs(x.replace(W_TOKEN, W)) for x in rec) for rec in tok[1])
-    raise ValueError(tok)
-
-
-def render(sop, W):
-    return " ".join(render_tok(t, W) for t in sop)
-
-
-def sop_to_json(sop):
-    out = []
-    for t in sop:
-        if isinstance(t, str):
-            out.append(t)
-        elif t[0] == "chain":
-            out.append({"chain": 1})
-        elif t[0] == "h":
-            out.append({"h": t[1].decode("latin-1")})
-        elif t[0] == "e":
-            out.append({"e": [t[1], t[2].decode("latin-1"), t[3].decode("latin-1")]})
-        else:
-            out.append({"l": [[None if x is None else x.decode("latin-1") for x in rec] for rec in t[1]]})
-    return out
-
-
-def sop_from_json(js):
-    out = []
-    for t in js:
-        if isinstance(t, str):
-            out.append(t)
-        elif "chain" in t:
-            out.append(("chain",))
-        elif "h" in t:
-            out.append(("h", t["h"].encode("latin-1")))
-        elif "e" in t:
-            out.append(("e", t["e"][0], t["e"][1].encode("latin-1"), t["e"][2].encode("latin-1")))
-        else:
-            out.append(("l", [[None if x is None else x.encode("latin-1") for x in rec] for rec in t["l"]]))
-    return out
-
-
-# ------------------------------------------------------------------ tree generator
-POOL_FILES = [b"a.txt", b"b.html", b"img.PNG", b"noext", b".hidden", b"x.tar.gz", b"s.css", b"y.js", b"%2e%2e", b"sp ace.txt",
-              b"caf\xc3\xa9.txt", b"back\\slash.txt", b"..hidden", b"...", b"a..b", b"index.HTM", b"f.svg", b"q.json", b"%2f", b".. "]
-POOL_DIRS = [b"d1", b"d2", b"d.dir", b"deep", b"img", b"..d", b"%2e"]
-LONG255 = b"L" * 255
-
-
-class Tree:
-    """A physical directory tree below the sandbox: tuple of names -> ('d',) | ('f', content) | ('l', target)."""
-    def __init__(self):
-        self.ent = {(): ("d",)}
-        self.order = []
-        self.n = 0
-        self.content_path = {}     # content -> physical path tuple (contents are unique)
-
-    def free(self, p):
-        return p not in self.ent and p[:-1] in self.ent and self.ent[p[:-1]][0] == "d" and len(p) <= 9
-
-    def fresh(self, p, tag=b"C"):
-        self.n += 1
-        c = tag + b"%d:" % self.n + b"/".join(p)[-40:]
-        self.content_path[c] = p
-        return c
-
-    def add_dir(self, p):
-        if self.free(p):
-            self.ent[p] = ("d",)
-            self.order.append(p)
-            return True
-        return p in self.ent and self.ent[p][0] == "d"
-
-    def add_file(self, p, content=None):
-        if not self.free(p):
-            return False
-        c = content if content is not None else self.fresh(p)
-        self.content_path.setdefault(c, p)
-        self.ent[p] = ("f", c)
-        self.order.append(p)
-        return True
-
-    def add_link(self, p, target):
-        if not self.free(p) or not target or len(target) > 3000:
-            return False
-        self.ent[p] = ("l", target)
-        self.order.append(p)
-        return True
-
-    def dirs(self):
-        return [p for p in self.ent if self.ent[p][0] == "d"]
-
-    def paths(self):
-        return list(self.ent.keys())
-
-
-def abs_of(p):
-    return W_TOKEN + b"".join(b"/" + n for n in p)
-
-
-def rel_target(frm_dir, to, rng):
-    """a relative spelling of physical path `to` as seen from physical directory `frm_dir`"""
-    k = 0
-    while k < len(frm_dir) and k < len(to) and frm_dir[k] == to[k]:
-        k += 1
-    if rng.chance(1, 5) and k > 0:
-        k -= 1          # go one level higher than necessary
-    parts = [b".."] * (len(frm_dir) - k) + list(to[k:])
-    if not parts:
-        parts = [b"."]
-    return parts
-
-
-def noise(parts, rng, absolute):
-    out = b"/" if absolute else b""
-    for i, c in enumerate(parts):
-        if i:
-            out += rng.choice([b"/", b"/", b"/", b"//", b"/./"])
-        elif not absolute and rng.chance(1, 8):
-            out += b"./"
-        out += c
-    if rng.chance(1, 8):
-        out += rng.choice([b"/", b"/.", b"//"])
-    return out
-
-
-def gen_link_target(t, at_dir, rng):
-    k = rng.below(20)
-    allp = t.paths()
-    if k < 11:
-        to = rng.choice(allp)
-        if rng.chance(1, 3):
-            return abs_of(to) + (b"/" if rng.chance(1, 10) else b"")
-        return noise(rel_target(at_dir, to, rng), rng, False)
-    if k < 13:
-        return rng.choice([b"nonexistent", b"../nonexistent/x", abs_of((b"outside", b"gone")), b"d1/missing"])
-    if k < 15:
-        return rng.choice([b".", b"..", b"../..", b"./", b"../", b"/", b"//", b"../../.."])
-    if k < 17:
-        to = rng.choice(allp)
-        return noise(rel_target(at_dir, to, rng) + [rng.choice(POOL_FILES + POOL_DIRS)], rng, False)
-    if k < 18:
-        return rng.choice([b"self", b"loopA", b"loopB"])
-    to = rng.choice(allp)
-    return noise(rel_target(at_dir, to, rng) + [b"..", rng.choice(POOL_FILES + POOL_DIRS)], rng, False)
-
-
-def gen_tree(rng):
-    t = Tree()
-    cfg = {}
-    t.add_dir((b"app",))
-    t.add_dir((b"outside",))
-    t.add_file((b"outside", b"secret.txt"), t.fresh((b"outside", b"secret.txt"), b"SECRET"))
-    t.add_dir((b"outside", b"dir"))
-    t.add_file((b"outside", b"dir", b"secret2.txt"), t.fresh((b"outside", b"dir", b"secret2.txt"), b"SECRET"))
-    t.add_file((b"outside", b"a.txt"), t.fresh((b"outside", b"a.txt"), b"SECRET"))
-    t.add_file((b"outside", b"a.txt.gz"), t.fresh((b"outside", b"a.txt.gz"), b"SECRET"))
-    t.add_dir((b"ext",))
-    # the two roots, in several shapes
-    for sub, key in ((b"static", "static"), (b"templates", "templates")):
-        k = rng.below(40)
-        p = (b"app", sub)
-        if k < 30:
-            t.add_dir(p)
-            cfg[key] = p
-        elif k < 32:
-            cfg[key] = None                                   # missing at construction
-        elif k < 35:
-            real = (b"app", b"real-" + sub)
-            t.add_dir(real)
-            t.add_link(p, rng.choice([b"real-" + sub, b"./real-" + sub + b"/", abs_of(real)]))
-            cfg[key] = real
-        elif k < 37:
-            t.add_link(p, rng.choice([b"../outside", abs_of((b"outside",)), b"../outside/dir/.."]))
-            cfg[key] = (b"outside",)                          # configuration points the root outside the app dir: that IS the root
-        elif k < 38:
-            t.add_file(p)
-            cfg[key] = None
-        elif k < 39:
-            t.add_link(p, b"nowhere")
-            cfg[key] = None
-        else:
-            t.add_link(p, sub)                                # self loop
-            cfg[key] = None
-    # sibling-prefix decoys
-    t.add_dir((b"app", b"static2"))
-    t.add_file((b"app", b"static2", b"a.txt"), t.fresh((b"app", b"static2", b"a.txt"), b"SECRET"))
-    t.add_file((b"app", b"staticx"), t.fresh((b"app", b"staticx"), b"SECRET"))
-    t.add_file((b"app", b"top.txt"), t.fresh((b"app", b"top.txt"), b"SECRET"))
-    bases = [b for b in (cfg["static"], cfg["templates"], (b"ext",)) if b is not None and b in t.ent and t.ent[b][0] == "d"]
-    # populate
-    for b in bases:
-        for _ in range(rng.range(1, 3)):
-            d = b
-            for _ in range(rng.range(1, 3)):
-                d = d + (rng.choice(POOL_DIRS),)
-                t.add_dir(d)
-        if rng.chance(1, 6):
-            t.add_dir(b + (LONG255,))
-            t.add_file(b + (LONG255, b"a.txt"))
-            t.add_file(b + (LONG255[:200] + b".txt",))
-    for _ in range(rng.range(6, 16)):
-        d = rng.choice(t.dirs())
-        t.add_file(d + (rng.choice(POOL_FILES),))
-    for b in bases:
-        t.add_file(b + (b"a.txt",))
-        if rng.chance(1, 2):
-            t.add_file(b + (b"s.css",))
-    # gz siblings of every shape
-    for p in [p for p in t.paths() if t.ent[p][0] == "f" and p[0] != b"outside"]:
-        if rng.chance(1, 4):
-            gz = p[:-1] + (p[-1] + b".gz",)
-            k = rng.below(6)
-            if k < 3:
-                t.add_file(gz)
-            elif k == 3:
-                t.add_link(gz, noise(rel_target(gz[:-1], (b"outside", b"secret.txt"), rng), rng, False))
-            elif k == 4:
-                t.add_dir(gz)
+            if rng.chance(1, 2):
+                parts = [rng.choice([b"r", b"static", b"static2", b"a", b"..a", b"a.txt"]) for _ in range(rng.range(0, 4))]
+                more = [rng.choice([b"static", b"static2", b"x", b"a.txt"]) for _ in range(rng.range(0, 3))]
+                b1 = b"/" + b"/".join(parts)
+                t1 = rng.choice([b"/" + b"/".join(parts + more), b"/" + b"/".join(parts[:-1] + more), b"/" + b"/".join(parts)[:-1] + b"2/x" if parts else b"/x"])
+                sops.append(["cont", H(b1), H(t1)])
             else:
-                inside = [q for q in t.paths() if t.ent[q][0] == "f" and q[0] != b"outside"]
-                t.add_link(gz, noise(rel_target(gz[:-1], rng.choice(inside), rng), rng, False))
-    # symbolic links
-    for i in range(rng.range(4, 12)):
-        d = rng.choice(t.dirs())
-        name = rng.choice([b"ln%d" % i, b"ln%d.txt" % i, b"ln%d.html" % i, b"self", b"loopA", b"loopB"])
-        t.add_link(d + (name,), gen_link_target(t, d, rng))
-    # a chain of links across the ELOOP boundary
-    if rng.chance(1, 4) and bases:
-        b = rng.choice(bases)
-        n = rng.choice([38, 39, 40, 41, 42])
-        if t.add_file(b + (b"chain-end.txt",)):
-            for i in range(n):
-                t.add_link(b + (b"c%d" % i,), b"c%d" % (i + 1) if i + 1 < n else b"chain-end.txt")
-            cfg["chain"] = (b, n)
-    # alternative spellings of the application root
-    t.add_link((b"approot",), rng.choice([b"app", b"./app/", abs_of((b"app",)), b"app/."]))
-    t.add_link((b"extlink",), b"ext")
-    return t, cfg
-
-
-def tree_op(t, cwd):
-    chain = ("chain",)
-    toks = ["tree", H(cwd), chain]
-    for p in t.order:
-        e = t.ent[p]
-        toks.append(E(e[0], abs_of(p), e[1] if len(e) > 1 else b""))
-    return toks
-
-
-def render_tree_tok(tok, W):
-    # the chain of real directories from `/` down to the sandbox (for the model only; the harness checks they exist)
-    parts = [x for x in W.split(b"/") if x]
-    out = []
-    for i in range(1, len(parts) + 1):
-        out.append("d:%s" % hexs(b"/" + b"/".join(parts[:i])))
-    return " ".join(out)
-
-
-def render_case(sops, W):
-    out = []
-    for sop in sops:
-        toks = []
-        for t in sop:
-            if isinstance(t, tuple) and t[0] == "chain":
-                toks.append(render_tree_tok(t, W))
-            else:
-                toks.append(render_tok(t, W))
-        out.append(" ".join(toks))
-    return out
-
-
-# ------------------------------------------------------------------ name generator
-def rel_names(t, base):
-    """relative spellings that lead (physically or through links) to something, seen from directory `base`"""
-    out = []
-    for p in t.paths():
-        if len(p) > len(base) and p[:len(base)] == base:
-            out.append(b"/".join(p[len(base):]))
-    return out
-
-
-def mutate_name(s, rng, t):
-    k = rng.below(44)
-    if k < 8 or rng.chance(1, 5):
-        return s
-    if k == 8:
-        return s.replace(b"/", b"//")
-    if k == 9:
-        return s.replace(b"/", b"/./")
-    if k == 10:
-        return b"./" + s
-    if k == 11:
-        return b"/" + s
-    if k == 12:
-        return b"../" * rng.range(1, 4) + s
-    if k == 13:
-        return b"..\\" * rng.range(1, 3) + s
-    if k == 14:
-        return s + rng.choice([b"/", b"//", b"/.", b"/./", b"/./."])
-    if k == 15:
-        return s + b"/.."
-    if k == 16:
-        return s + b"/" + rng.choice(POOL_FILES + POOL_DIRS)
-    if k == 17:
-        parts = s.split(b"/")
-        return b"/".join(parts[:-1] + [rng.choice(POOL_DIRS), b"..", parts[-1]])
-    if k == 18:
-        return b"%2e%2e/" * rng.range(1, 3) + s
-    if k == 19:
-        return s.replace(b"/", b"%2f").replace(b".", b"%2e")
-    if k == 20:
-        return s + b"\0" + rng.choice([b".png", b"", b"/../x"])
-    if k == 21:
-        return rng.choice([b"\0", b"\0/"]) + s
-    if k == 22:
-        return s.replace(b"/", b"\\") if b"/" in s else s + b"\\"
-    if k == 23:
-        return s.swapcase()
-    if k == 24:
-        return s + b".gz"
-    if k == 25:
-        return rng.choice([b"...", b"....", b".. ", b" ..", b"..;", b"..%00", b". .", b".", b"", b"./", b".//.", b"./.", b"..", b"../"])
-    if k == 26:
-        return s + b"/" + rng.choice([b"...", b".. ", b"..."]) + b"/" + s
-    if k == 27:
-        return rng.choice([b"A" * 255, b"A" * 256, b"A" * 300, LONG255, LONG255 + b"/a.txt", LONG255 + b"x/a.txt", LONG255[:200] + b".txt"])
-    if k == 28:
-        return s + b"/" + b"A" * rng.choice([255, 256])
-    if k == 29:
-        return b"./" * rng.choice([2040, 2100, 1800]) + s
-    if k == 30:
-        return b"d1/" * rng.choice([1400, 30]) + s
-    if k == 31:
-        return abs_of((b"outside", b"secret.txt"))
-    if k == 32:
-        return rng.choice([b"/etc/passwd", b"//etc/passwd", b"/", b"//"])
-    if k == 33:
-        links = [p for p in t.paths() if t.ent[p][0] == "l"]
-        if links:
-            return rng.choice(links)[-1] + rng.choice([b"", b"/", b"/secret.txt", b"/secret2.txt", b"/a.txt", b"/dir/secret2.txt", b"/."])
-        return s
-    if k == 34:
-        return s.replace(b".", b"..", 1)
-    if k == 35:
-        return b"static/" + s
-    if k == 36:
-        i = rng.below(len(s) + 1)
-        return s[:i] + bytes([rng.choice([0, 92, 47, 46, 37, 255, 128, 10, 32])]) + s[i:]
-    if k == 37 and s:
-        i = rng.below(len(s))
-        return s[:i] + s[i + 1:]
-    if k == 38:
-        return s + rng.choice([b" ", b".", b"..", b"/ ", b"\t"])
-    if k == 39:
-        return rng.choice([b"../static/", b"../static2/", b"../templates/", b"./../"]) + s
-    if k == 40:
-        return rng.choice([b"..", b"../..", b"../../outside/secret.txt", b"d1/../../top.txt", b"..//top.txt", b"./../top.txt"])
-    if k == 41:
-        return b"c0"
-    if k == 42:
-        return s.replace(b"/", b"/" * rng.range(2, 5))
-    return rng.choice(POOL_FILES)
-
-
-def gen_names(t, base, rng, n):
-    """list of (name, pristine): pristine = an unmutated relative spelling of something that exists"""
-    cands = rel_names(t, base) if base is not None else []
-    cands += [b"a.txt", b"s.css", b"d1/a.txt"]
-    out = []
-    for _ in range(n):
-        s0 = rng.choice(cands)
-        s = s0
-        # spell the way through a symbolic link now and then
-        if rng.chance(1, 5):
-            links = [p for p in t.paths() if t.ent[p][0] == "l" and base is not None and p[:len(base)] == base]
-            if links:
-                l = rng.choice(links)
-                s = b"/".join(l[len(base):]) + b"/" + rng.choice([b"a.txt", b"secret.txt", b"dir/secret2.txt", b"d1/a.txt", s])
-        s1 = mutate_name(s, rng, t)
-        if rng.chance(1, 12):
-            s1 = mutate_name(s1, rng, t)
-        out.append((s1, s1 == s0))
-    return out
-
-
-def boundary_names(root_len, rng):
-    """names whose candidate string <root>/<name> is exactly around PATH_MAX"""
-    out = []
-    for total in (4094, 4095, 4096, 4097):
-        pad = total - root_len - 1 - len(b"a.txt")
-        if pad > 0:
-            out.append(b"./" * (pad // 2) + (b"/" if pad % 2 else b"") + b"a.txt")
-    return out
-
-
-# ------------------------------------------------------------------ independent references (generator side)
-def ref_lexrej(p):
-    if not p:
-        return False
-    return p[:1] == b"/" or b"\0" in p or b"\\" in p or b".." in p.split(b"/")
-
-
-def rand_lex_path(rng):
-    parts = [rng.choice([b"a", b"b", b"..", b".", b"", b"c.txt", b"...", b"..a", b"static", b"static2"]) for _ in range(rng.range(0, 6))]
-    s = b"/".join(parts)
-    if rng.chance(1, 2):
-        s = b"/" + s
-    if rng.chance(1, 4):
-        s += b"/"
-    return s
-
-
-def ref_contained_canonical(base, target):
-    b = [x for x in base.split(b"/") if x]
-    tt = [x for x in target.split(b"/") if x]
-    return tt[:len(b)] == b
-
-
-# ------------------------------------------------------------------ case generation
-def gen_fs_case(rng, idx, quick, wlen):
-    t, cfg = gen_tree(rng)
-    cwd_p = rng.choice([(), (b"app",), (b"outside",)])
-    sops = [tree_op(t, abs_of(cwd_p))]
-    meta = {"cat": "fs", "tree": idx}
-    # a few direct probes of the platform model
-    for _ in range(rng.range(2, 6)):
-        p = rng.choice(t.paths())
-        s = abs_of(p)
-        if rng.chance(1, 2):
-            s = mutate_name(s, rng, t)
-            if s[:1] != b"/" and not s.startswith(W_TOKEN):
-                s = abs_of(()) + b"/" + s
-        if b"\0" in s:
-            s = s.replace(b"\0", b"")
-        if not s.startswith(W_TOKEN):
-            s = abs_of(()) + b"/" + s.lstrip(b"/")
-        sops.append([rng.choice(["wc", "wc", "stat", "read"]), H(s)])
-    for _ in range(rng.range(0, 3)):       # relative to the working directory
-        names = rel_names(t, cwd_p) or [b"a.txt"]
-        s = mutate_name(rng.choice(names), rng, t).replace(b"\0", b"")
-        if not s.startswith(b"/"):
-            sops.append([rng.choice(["wc", "stat"]), H(s)])
-    # the instance
-    root_spellings = [abs_of((b"app",)), abs_of((b"app",)) + b"/", abs_of((b"approot",)), abs_of(()) + b"//app/./", abs_of((b"app", b"static", b"..")),
-                      abs_of((b"outside", b"..", b"app"))]
-    if cwd_p == ():
-        root_spellings += [b"app", b"./app", b"app/", b"approot", b"approot/."]
-    elif cwd_p == (b"app",):
-        root_spellings += [b".", b"./", b"../app", b"static/.."]
-    else:
-        root_spellings += [b"../app", b"../approot/"]
-    if rng.chance(1, 12):
-        root_spellings = [abs_of((b"app", b"top.txt")), abs_of((b"missing",)), b"", abs_of((b"app", b"static", b"a.txt", b"x"))]
-    root = rng.choice(root_spellings)
-    per = rng.chance(1, 3)
-    sops.append(["newfs", H(root), "1" if per else "0"])
-    meta["per_request"] = per
-    nnames = 50 if quick else 70
-    for kind, key in (("static", "static"), ("template", "templates")):
-        base = cfg[key]
-        names = gen_names(t, base if base is not None else (b"app", key.encode()), rng, nnames if kind == "static" else nnames // 3)
-        if base is not None and rng.chance(1, 3):
-            # names whose candidate string <root>/<name> is exactly around PATH_MAX (the root is canonical: sandbox + base)
-            names += [(n, False) for n in boundary_names(wlen + sum(len(x) + 1 for x in base), rng)]
-        swap_targets = [abs_of((b"outside", b"secret.txt")), b"../" * 6 + b"outside/secret.txt", b"a.txt", b"nonexistent", abs_of((b"outside",)),
-                        abs_of((b"outside", b"a.txt.gz"))]
-        for nm, pristine in names:
-            sops.append([kind, H(nm)])
-            if rng.chance(1, 6):
-                sops.append([kind, H(nm)])                      # hit the cache
-            if rng.chance(1, 25):
-                sops += gen_mutation(t, cfg, rng, kind, nm)
-            if rng.chance(1, 6 if pristine else 30):
-                # the schedule {resolve, swap the leaf for a link, open}; a reload first so that the open is reached
-                if rng.chance(2, 3):
-                    sops.append(["reload"])
-                sops.append(["swap" + kind, H(nm), H(rng.choice(swap_targets))])
-                sops.append([kind, H(nm)])
-                note_swap(t, base, nm)
-            if rng.chance(1, 40):
-                sops.append(["reload"])
-    return {"sops": sops, "tree_obj": t, "cfg": cfg, **meta}
-
-
-def note_swap(t, base, nm):
-    """the generator's tree is only used to pick later names; a swapped leaf is simply forgotten as a file"""
-    return
-
-
-def gen_mutation(t, cfg, rng, kind, nm):
-    """environment steps between lookups: replace/remove/create objects, then look the same name up again (cache staleness)"""
-    out = []
-    base = cfg["static" if kind == "static" else "templates"]
-    if base is None:
-        return out
-    comps = [c for c in nm.split(b"/") if c and c != b"."]
-    if not comps or b".." in comps or b"\0" in nm or b"\\" in nm or any(len(c) > 255 for c in comps) or len(comps) > 5:
-        return out
-    p = base + tuple(comps)
-    if p[:-1] not in t.ent or t.ent[p[:-1]][0] != "d":
-        return out
-    k = rng.below(5)
-    old = t.ent.get(p)
-    if old is not None and old[0] == "d":
-        return out
-    if k == 0:
-        c = t.fresh(p, b"NEW")
-        t.ent[p] = ("f", c)
-        out.append(["put", "f", H(abs_of(p)), H(c)])
-    elif k == 1:
-        tgt = rng.choice([abs_of((b"outside", b"secret.txt")), b"../" * len(p[1:]) + b"outside/secret.txt", b"a.txt", b"missing"])
-        t.ent[p] = ("l", tgt)
-        out.append(["put", "l", H(abs_of(p)), H(tgt)])
-    elif k == 2 and old is not None:
-        del t.ent[p]
-        out.append(["rm", H(abs_of(p))])
-    elif k == 3:
-        gz = p[:-1] + (p[-1] + b".gz",)
-        if (gz in t.ent and t.ent[gz][0] == "d") or len(gz[-1]) > 255:
-            return out
-        tgt = rng.choice([abs_of((b"outside", b"a.txt.gz")), b"a.txt"])
-        t.ent[gz] = ("l", tgt)
-        out.append(["put", "l", H(abs_of(gz)), H(tgt)])
-    else:
-        return out
-    out.append([kind, H(nm)])
-    if rng.chance(1, 2):
-        out.append(["reload"])
-        out.append([kind, H(nm)])
-    return out
-
-
-def gen_emb_case(rng, idx, quick):
-    t, cfg = gen_tree(rng)
-    cwd_p = rng.choice([(), (b"app",)])
-    sops = [tree_op(t, abs_of(cwd_p))]
-    extdir = rng.choice([abs_of((b"ext",)), abs_of((b"ext",)) + b"/", abs_of((b"extlink",)), abs_of((b"missing-ext",)), abs_of((b"missing-ext",)) + b"/",
-                         b"", abs_of((b"app", b"..", b"ext")), abs_of((b"outside", b"secret.txt"))] + ([b"ext", b"./ext/", b"extlink"] if cwd_p == () else [b"../ext"]))
-    names = [n for n, _ in gen_names(t, (b"ext",), rng, 40)]
-    # registry tables must be SORTED (binary search): keys containing the sandbox placeholder would sort differently once rendered
-    reg_ok = [n for n in names if W_TOKEN not in n]
-    names_all = names
-    names = reg_ok + [b"a.txt"] * (9 - len(reg_ok)) if len(reg_ok) < 9 else reg_ok
-    emb_names = sorted(set([b"e1.txt", b"dir/e2.css", b"a.txt"] + [n for n in names[:6] if not ref_lexrej(n)]))
-    statics = []
-    for i, n in enumerate(emb_names):
-        c = b"EMB%d:" % i + n[-20:]
-        statics.append([n, c, (b"EMBGZ%d" % i) if rng.chance(1, 3) else None])
-    templates = sorted([[n, b"EMBT:" + n[-20:]] for n in set([b"t.html", b"p/q.html"] + names[6:9])], key=lambda r: r[0])
-    externals = sorted(set(names[9:] + [b"a.txt", b"e1.txt"]))
-    # records are comma/colon separated hex: any byte string is fine
-    sops.append(["newemb", H(extdir), ("l", statics), ("l", templates), ("l", [[x] for x in externals])])
-    for nm in names_all + [b"e1.txt", b"dir/e2.css", b"t.html", b"a.txt"]:
-        sops.append(["static", H(nm)])
-        if rng.chance(1, 3):
-            sops.append(["template", H(nm)])
-        if rng.chance(1, 15):
-            sops.append(["swapstatic", H(nm), H(rng.choice([abs_of((b"outside", b"secret.txt")), b"../outside/secret.txt"]))])
-    return {"sops": sops, "tree_obj": t, "cfg": cfg, "cat": "embedded", "tree": idx, "emb_contents": [s[1] for s in statics] + [s[2] for s in statics if s[2]] + [x[1] for x in templates]}
-
-
-def gen_pure_case(rng):
-    sops = []
-    for _ in range(60):
-        k = rng.below(3)
-        if k == 0:
-            sops.append(["norm", H(rand_lex_path(rng))])
-        elif k == 1:
-            sops.append(["cont", H(rand_lex_path(rng)), H(rand_lex_path(rng))])
+                sops.append(["cont", H(rand_lex_path(rng)), H(rand_lex_path(rng))])
         else:
             n = mutate_name(rng.choice([b"a.txt", b"d1/a.txt", b"x/y/z"]), rng, Tree())
             sops.append(["lexrej", H(n if len(n) < 600 else n[:600])])
@@ -1358,6 +722,13 @@ def monitor_case(c, ops, impl, W):
                     bad.append((idx, "C20: %s %r served but realpath(<root>/<name>) = %r is outside the root" % (op, sop[1][1][:80], unhex(orc["rp"])[-80:])))
         if op == "storm" and not main.startswith("storm ok"):
             bad.append((idx, "C20: swap storm: %s" % main[:120]))
+        if op == "cont" and main in ("0", "1"):
+            bb, tt = sop[1][1].replace(W_TOKEN, W), sop[2][1].replace(W_TOKEN, W)
+
+            def canonical(x):
+                return x[:1] == b"/" and (x == b"/" or (not x.endswith(b"/") and all(c not in (b"", b".", b"..") for c in x[1:].split(b"/"))))
+            if canonical(bb) and canonical(tt) and (main == "1") != ref_contained_canonical(bb, tt):
+                bad.append((idx, "A2: isContained(%r, %r) = %s, component-wise prefix reference says %s" % (bb[:60], tt[:60], main, ref_contained_canonical(bb, tt))))
         if op == "lexrej" and main in ("0", "1"):
             nm = sop[1][1].replace(W_TOKEN, W)
             if (main == "1") != ref_lexrej(nm):
@@ -1394,7 +765,7 @@ OBLIGATIONS = [
      "statement": "a cache hit is re-validated: the name currently resolves to a regular file strictly inside the root"},
     {"id": "C20_A5_stale", "theorem": "Iora.C20.A5_cache_can_be_stale", "kind": "proved",
      "statement": "witness: a cached entry outlives a rewrite of its file until reload() (stale but once-inside bytes)"},
-    {"id": "C20_A0", "theorem": "Iora.Assets.fromDirectory_inv", "kind": "proved",
+    {"id": "C20_A0", "theorem": "Iora.C20.A0_fromDirectory", "kind": "proved",
      "statement": "fromDirectory returns canonical absolute roots (ordinary NUL-free names) and empty caches"},
     {"id": "C20_total", "theorem": "Iora.C20.Model_walk_total", "kind": "proved",
      "statement": "the model of stat/open/realpath never answers 'out of fuel' (walkFuel is always enough)"},
